@@ -19,7 +19,7 @@ SWEEP_NAMES = {'sort', 'argsort', 'sorted', 'lexsort', 'argpartition', 'partitio
 
 # (function qualname, callee text) -> reason. Confirmed by reading; a new unclassified ordering call is exit 2.
 EXEMPT = {
-    ('gambit.sigs.calc.SetAccumulator.signature', 'sig.sort'): 'elements of a set are distinct: any sort gives the same array (C01-K7)',
+    ('gambit.sigs.calc.SetAccumulator.signature', '.sort'): 'elements of a set are distinct: any sort gives the same array (C01-K7)',
     ('gambit.classify.classify', 'sorted'): 'Python sorted() is stable and only orders names inside a warning message',
     ('gambit.db.models.Taxon._print_tree', 'sorted'): 'debug printing only; Python sorted() is stable',
 }
@@ -157,7 +157,7 @@ def sweep(ctx, armed_call=None):
         if name not in SWEEP_NAMES:
             continue
         txt = u(call.func)
-        key = (fi.qualname, txt)
+        key = (fi.qualname, txt if not (isinstance(call.func, ast.Attribute) and isinstance(call.func.value, ast.Name) and call.func.value.id not in ('np', 'numpy')) else f'.{name}')
         seen.append(key)
         if key in ARMED or call is armed_call:
             rep.add('Q5', fi.site(call), f'ordering call {txt} is armed (its order is observable in results; decided by Q1)', True, found=txt, stmt=call)
